@@ -655,6 +655,87 @@ def subpackage_documents_pass(ctx, tmp):
                 return
 
 
+def extension_pass(ctx, tmp):
+    """an *extension* metamodel (an .ecore document: a class that extends a class of the base metamodel, references typed by
+    base classes) loaded on top of the base — once with the base defined statically (its module in the registry), once
+    dynamically: the extension's class can be instantiated and used the same way on both (values of base classes accepted,
+    ill-typed ones refused with BadValueError, inherited features there)"""
+    from pyecore import ecore as E
+    from pyecore.resources import ResourceSet, URI
+    for k in range(8 if ctx.quick() else 80):
+        rng = common.sub_rng(ctx.seed, 'C13', 'extension', k)
+        mm = store.gen_mm(rng)
+        concrete = [cid for (cid, abstract, _s) in mm.classes if not abstract]
+        if not concrete:
+            continue
+        base = rng.choice(concrete)
+        style = 'decorator' if k % 2 else 'metaclass'
+        doc = ('<?xml version="1.0" encoding="UTF-8"?>\n<ecore:EPackage xmi:version="2.0" xmlns:xmi="http://www.omg.org/XMI" '
+               'xmlns:xsi="http://www.w3.org/2001/XMLSchema-instance" xmlns:ecore="http://www.eclipse.org/emf/2002/Ecore" '
+               f'name="ext" nsURI="http://verif/c13/ext{k}" nsPrefix="ext">\n'
+               # (the supertype as an attribute, or as the href element EMF writes for a class of another document)
+               + (f'  <eClassifiers xsi:type="ecore:EClass" name="Ext" eSuperTypes="http://verif/p#//C{base}">\n' if k % 3 == 0 else
+                  f'  <eClassifiers xsi:type="ecore:EClass" name="Ext">\n    <eSuperTypes href="http://verif/p#//C{base}" xsi:type="ecore:EClass"/>\n') +
+               f'    <eStructuralFeatures xsi:type="ecore:EReference" name="prey" upperBound="-1" eType="ecore:EClass http://verif/p#//C{base}"/>\n'
+               f'    <eStructuralFeatures xsi:type="ecore:EReference" name="rival" eType="ecore:EClass http://verif/p#//C{base}"/>\n'
+               '    <eStructuralFeatures xsi:type="ecore:EAttribute" name="tag" eType="ecore:EDataType http://www.eclipse.org/emf/2002/Ecore#//EString"/>\n'
+               '  </eClassifiers>\n</ecore:EPackage>\n')
+        path = os.path.join(tmp, f'ext{k}.ecore')
+        open(path, 'w').write(doc)
+        outcomes = {}
+        for side in ('static', 'dynamic'):
+            log = []
+            try:
+                if side == 'static':
+                    _pk, classes, _f, mod, _src = static_render.build(mm, style)
+                    registry_value, make_base = mod, getattr(mod, f'C{base}')
+                else:
+                    pk, classes, _f = build_dynamic(mm)
+                    registry_value, make_base = pk, classes[base]
+                rset = ResourceSet()
+                rset.metamodel_registry['http://verif/p'] = registry_value
+                Ext = rset.get_resource(URI(path)).contents[0].getEClassifier('Ext')
+                if k % 4 >= 2:
+                    _ = Ext.findEStructuralFeature('prey').eType.name      # (describing the metamodel first follows the proxies)
+                e = Ext()
+                log.append('instantiated')
+                for step in ('prey.append', 'rival=', 'rival=ext', 'rival=bad', 'prey.append-bad', 'tag=', 'inherited'):
+                    try:
+                        if step == 'prey.append':
+                            e.prey.append(make_base())
+                        elif step == 'rival=':
+                            e.rival = make_base()
+                        elif step == 'rival=ext':
+                            e.rival = Ext()
+                        elif step == 'rival=bad':
+                            e.rival = 'bad'
+                        elif step == 'prey.append-bad':
+                            e.prey.append(5)
+                        elif step == 'tag=':
+                            e.tag = 't'
+                        else:
+                            names = sorted(f.name for f in e.eClass.eAllStructuralFeatures())
+                            for n_ in names:
+                                getattr(e, n_)
+                            log.append(f'features {names}')
+                            continue
+                        log.append(f'{step} ok')
+                    except Exception as ex:
+                        log.append(f'{step} {type(ex).__name__}')
+                log.append(f'prey {len(e.prey)} rival-is-Ext {e.rival is not None and e.rival.eClass is Ext}')
+            except Exception as ex:
+                log.append(f'raised {type(ex).__name__}: {str(ex)[:60]}')
+            outcomes[side] = log
+        ctx.evaluations += 1
+        ctx.count('extension/' + style)
+        ctx.nontriv(('extension', k))
+        if outcomes['static'] != outcomes['dynamic']:
+            d = next(((a, b) for a, b in zip(outcomes['static'], outcomes['dynamic']) if a != b), (outcomes['static'][-1:], outcomes['dynamic'][-1:]))
+            ctx.violate({'clause': 'extension'}, f'an .ecore extension of class C{base} loaded over the base: statically defined base ({style}): {d[0]}; '
+                        f'dynamically defined base: {d[1]}', {'extension': k, 'style': style})
+            return
+
+
 def class_lists_pass(ctx):
     """the other lists of a class — annotations, type parameters — edited the same way on the EClass of a static class and
     on a dynamic EClass: same results, same exceptions"""
@@ -735,6 +816,7 @@ def run(ctx):
     tmp = tempfile.mkdtemp(prefix='verif_c13_')
     try:
         subpackage_documents_pass(ctx, tmp)
+        extension_pass(ctx, tmp)
     finally:
         shutil.rmtree(tmp, ignore_errors=True)
     ctx.assumptions += ['operations are compared by name, parameter names in order and required flags; the reflected `self` parameter of a '
